@@ -127,6 +127,8 @@ def scripts_from_graph(g, seed, maxlen=40, every=1):
         for ei in walk:
             src, dst, label = g.edges[ei]
             rot += 1
+            if rot % 5 == 0:
+                lines.append("clone")      # continue on a copy of the instance (no event: a copy must behave like the original)
             m = re.match(r"(\w+)(?:\((.*)\))?$", label)
             act, arg = m.group(1), m.group(2)
             if act == "DoSeekRel":
@@ -152,6 +154,8 @@ def scripts_from_graph(g, seed, maxlen=40, every=1):
         # probe suffix: from whatever state the walk ended in, a fresh seek must still give the keystream of the absolute
         # position (makes persistent hidden-state corruption - e.g. a damaged nonce/counter word - observable); not part of
         # the graph, so no model state is expected for these two records
+        if rot % 2 == 0:
+            lines.append("clone")
         probe = [0, 64 * 3 + 5, 2**38 - 130, 64][rot % 4]
         endpos = limbs_to_int(g.field(g.edges[walk[-1]][1] if walk else init, "pos"))
         nprobe = 0
